@@ -84,9 +84,13 @@ def _create_new_header(
 
     # Verify that the result contains all ReuseInfo.
     new_reuse_info = extract_reuse_info(result)
-    if (
-        reuse_info.copyright_lines != new_reuse_info.copyright_lines
-        and reuse_info.spdx_expressions != new_reuse_info.spdx_expressions
+    # Either kind of information may be missing, not only both at once. The
+    # expressions are compared by their text: callers may pass them as plain
+    # strings, whereas the extracted ones are parsed.
+    if not set(reuse_info.copyright_lines).issubset(
+        new_reuse_info.copyright_lines
+    ) or not set(map(str, reuse_info.spdx_expressions)).issubset(
+        map(str, new_reuse_info.spdx_expressions)
     ):
         _LOGGER.debug(
             _(
